@@ -805,6 +805,9 @@ func refMutationAddr(addr ssa.Value, depth int, seen map[ssa.Value]bool) (string
 			}
 		case *ssa.DebugRef:
 		case ssa.CallInstruction:
+			if b, isB := y.Common().Value.(*ssa.Builtin); isB && (b.Name() == "len" || b.Name() == "cap") {
+				continue // asks for the size only
+			}
 			if how, p, decided := addrIntoCallee(y, addr, depth, seen); decided {
 				if how != "" {
 					return how, p
